@@ -112,6 +112,7 @@ func checkC16(c *Ctx) {
 	r.Rule("R16.5", "key-lock values: written by the owner before release only", 2)
 	r.Rule("R16.6", "every struct field of the package is classified", 1)
 	r.Rule("R16.8", "no spawned goroutine reads the caller's key slice (obligations of C04 R04.4)", 2)
+	r.Rule("R16.9", "no local variable captured by a goroutine literal is written by one side and used by the other after the go statement", 1)
 	r.Rule("R16.7", "constructors initialise everything the background goroutines read before starting them", 3)
 	r.NotDecided = []string{"races inside user code and the standard library", "fields of USER class (Invalidator.Callbacks, HTTPTransfer.*, gob registry globals: registration-time)",
 		"goroutine start vs. later constructor writes (constructors publish fields the goroutines read before starting them: read by hand)"}
@@ -133,6 +134,209 @@ func checkC16(c *Ctx) {
 			}
 		}
 	}, func(o *coreObl) (string, bool) { return "R16.8", o.Rule == "R04.4" })
+	// … also not by taking the private copy inside the goroutine (C09 R09.1), and the TTL cell of the caller's context — shared by
+	// every goroutine using that context — is never written by Failover: the stale refresh derives its own cell (C06 R06.2)
+	c.borrowKinds("C09", func() { c.c09Retention() }, "R16.8", "Failover.Get:key-read-after-return", []string{"R09.1"}, "read-in-goroutine", "used-in-goroutine")
+	c.borrowKinds("C06", func() {
+		for _, sib := range siblings {
+			if fo := c.failover(sib); fo.Err == nil {
+				c.c06Sibling(fo)
+			}
+		}
+	}, "R16.8", "Failover.Get:caller-ttl-cell", []string{"R06.2"}, "refresh-ctx")
+	c.c16CapturedVars()
+}
+
+// c16CapturedVars: a function literal started with `go` shares the variables it captures with the function that started it. A
+// captured local variable (not a field behind a pointer: those are classified by R16.1) that the goroutine writes and the spawner
+// still uses after the go statement — or that the spawner writes after the go statement and the goroutine uses — is an
+// unsynchronised conflict unless a join (WaitGroup.Wait, channel receive) separates them; the module has no such join inside a
+// spawner, so every such pair is reported.
+func (c *Ctx) c16CapturedVars() {
+	r := c.R
+	info := c.Pkg.TypesInfo
+	nGo, bad := 0, false
+	c.eachFuncDecl(func(fd *ast.FuncDecl, fn *types.Func) {
+		name := strings.TrimPrefix(pw.FuncName(fn), "cache.")
+		var walk func(body ast.Node, encl ast.Node)
+		walk = func(body ast.Node, encl ast.Node) {
+			ast.Inspect(body, func(x ast.Node) bool {
+				g, ok := x.(*ast.GoStmt)
+				if !ok {
+					return true
+				}
+				lit, ok := ast.Unparen(g.Call.Fun).(*ast.FuncLit)
+				if !ok {
+					return true
+				}
+				nGo++
+				// accesses inside the literal to variables declared outside it (and inside the enclosing declaration)
+				type acc struct{ w, rd token.Pos }
+				inside := map[*types.Var]*acc{}
+				writes := writtenIdents(lit.Body, info)
+				ast.Inspect(lit.Body, func(y ast.Node) bool {
+					id, ok := y.(*ast.Ident)
+					if !ok {
+						return true
+					}
+					v, ok := info.Uses[id].(*types.Var)
+					if !ok || v.IsField() || v.Pkg() == nil || v.Parent() == v.Pkg().Scope() {
+						return true
+					}
+					if v.Pos() >= lit.Pos() && v.Pos() < lit.End() || v.Pos() < fd.Pos() || v.Pos() >= fd.End() {
+						return true
+					}
+					a := inside[v]
+					if a == nil {
+						a = &acc{}
+						inside[v] = a
+					}
+					if writes[id] {
+						if a.w == 0 {
+							a.w = id.Pos()
+						}
+					} else if a.rd == 0 {
+						a.rd = id.Pos()
+					}
+					return true
+				})
+				if len(inside) == 0 {
+					return true
+				}
+				// accesses of the spawner after the go statement (a go statement in a loop: the whole loop body counts)
+				lo, hi := g.End(), fd.End()
+				if l := enclosingLoop(fd.Body, g); l != nil {
+					lo = l.Pos()
+				}
+				// a join after the go statement (WaitGroup.Wait, channel receive, errgroup Wait) orders what follows it after the goroutine
+				ast.Inspect(fd.Body, func(y ast.Node) bool {
+					if y == nil || y.Pos() < g.End() || y.Pos() >= hi {
+						return y == nil || y.End() > g.End()
+					}
+					switch j := y.(type) {
+					case *ast.UnaryExpr:
+						if j.Op == token.ARROW && j.Pos() < hi {
+							hi = j.Pos()
+						}
+					case *ast.CallExpr:
+						if sel, ok := ast.Unparen(j.Fun).(*ast.SelectorExpr); ok && sel.Sel.Name == "Wait" && j.Pos() < hi {
+							hi = j.Pos()
+						}
+					}
+					return true
+				})
+				outW := writtenIdents(fd.Body, info)
+				ast.Inspect(fd.Body, func(y ast.Node) bool {
+					if y == ast.Node(lit) {
+						return false
+					}
+					id, ok := y.(*ast.Ident)
+					if !ok || id.Pos() < lo || id.Pos() >= hi {
+						return true
+					}
+					v, ok := info.Uses[id].(*types.Var)
+					if !ok {
+						return true
+					}
+					a := inside[v]
+					if a == nil {
+						return true
+					}
+					if a.w != 0 || outW[id] {
+						bad = true
+						what := "reads"
+						if outW[id] {
+							what = "writes"
+						}
+						gw := a.w
+						gwhat := "writes"
+						if gw == 0 {
+							gw, gwhat = a.rd, "reads"
+						}
+						r.Bad("R16.9", name, "captured-variable-conflict:"+v.Name(), c.Pos(id.Pos()), fmt.Sprintf("the goroutine started at %s %s the captured variable %s (%s) and the spawner %s it after the go statement without synchronisation", c.Pos(g.Pos()), gwhat, v.Name(), c.Pos(gw), what), nil)
+						delete(inside, v)
+					}
+					return true
+				})
+				return true
+			})
+		}
+		walk(fd.Body, fd)
+	})
+	r.Count("go_literals", nGo)
+	if nGo == 0 {
+		r.Unknown("R16.9", "package", "no go statement with a function literal found")
+	} else if !bad {
+		r.OK("R16.9", "package", fmt.Sprintf("%d goroutine literals: no captured local variable is written by one side and used by the other after the go statement", nGo))
+	}
+}
+
+// writtenIdents: identifiers that are assigned (=, op=, ++/--, range =) or whose address is taken in n.
+func writtenIdents(n ast.Node, info *types.Info) map[*ast.Ident]bool {
+	out := map[*ast.Ident]bool{}
+	mark := func(e ast.Expr) {
+		if id, ok := ast.Unparen(e).(*ast.Ident); ok {
+			out[id] = true
+		}
+	}
+	ast.Inspect(n, func(x ast.Node) bool {
+		switch s := x.(type) {
+		case *ast.AssignStmt:
+			if s.Tok != token.DEFINE {
+				for _, l := range s.Lhs {
+					mark(l)
+				}
+			} else {
+				// := may re-assign an existing variable of the same scope
+				for _, l := range s.Lhs {
+					if id, ok := l.(*ast.Ident); ok && info.Defs[id] == nil {
+						out[id] = true
+					}
+				}
+			}
+		case *ast.IncDecStmt:
+			mark(s.X)
+		case *ast.RangeStmt:
+			if s.Tok == token.ASSIGN {
+				if s.Key != nil {
+					mark(s.Key)
+				}
+				if s.Value != nil {
+					mark(s.Value)
+				}
+			}
+		case *ast.UnaryExpr:
+			if s.Op == token.AND {
+				mark(s.X)
+			}
+		}
+		return true
+	})
+	return out
+}
+
+func enclosingLoop(root ast.Node, target ast.Node) ast.Node {
+	var found ast.Node
+	var stack []ast.Node
+	ast.Inspect(root, func(x ast.Node) bool {
+		if x == nil {
+			stack = stack[:len(stack)-1]
+			return true
+		}
+		if x == target {
+			for _, s := range stack {
+				switch s.(type) {
+				case *ast.ForStmt, *ast.RangeStmt:
+					if found == nil {
+						found = s
+					}
+				}
+			}
+		}
+		stack = append(stack, x)
+		return true
+	})
+	return found
 }
 
 func ownerOf(f *types.Var, pkg *types.Package) string {
